@@ -427,6 +427,38 @@ class C18(Check):
                     if not (o == explicit) or not (explicit == o) or hash(o) != hash(explicit) or not (o == members):
                         out.fail("C18.bls-eq", "%s: %s is unequal to the explicit set of its own elements" % (k, o), "bls-eq")
                     out.stats["bls_pairs"] += 1
+            # (5) history: the definition files are edited IN PLACE (same paths) and read again in the same process; a model object
+            # kept from the earlier read equals the new object of the same file exactly when nothing observable changed
+            if c is not None and sorted(c.uni.defs) == sorted(b.uni.defs) and all(c.uni.file_of(k) == b.uni.file_of(k) for k in b.uni.defs):
+                for k in c.uni.defs:
+                    b.world.write(b.uni.file_of(k), c.world.texts[k])
+                fresh: dict = {}
+                nroots = len(b.uni.roots)
+                ok5 = True
+                for ri in range(nroots):
+                    res5 = b.world.run_read({"op": "rn", "root": {"p": b.uni.roots[ri]["dir"]},
+                                             "lookups": [{"p": b.uni.roots[x]["dir"]} for x in range(nroots) if x != ri], "key": None, "cwd": ""})
+                    if not res5["ok"]:
+                        ok5 = False
+                        break
+                    fresh.update({str(t): t for t in res5["direct"]})
+                if ok5:
+                    olds, news = dict(_harvest(b.types)), dict(_harvest(fresh))
+                    for k5, o_old in olds.items():
+                        o_new = news.get(k5)
+                        if o_new is None or type(o_old) is not type(o_new) or not isinstance(o_old, pydsdl.SerializableType):
+                            continue
+                        differ = str(o_old) != str(o_new) or self._bls_differ(o_old, o_new)
+                        out.stats["kept_vs_reread_after_edit_pairs"] += 1
+                        out.stats["kept_vs_reread_after_edit_differing"] += int(differ)
+                        e1, e2 = (o_old == o_new), (o_new == o_old)
+                        if differ and (e1 or e2):
+                            out.fail("C18.distinct", "%s (%s): the object kept from the read before the file was edited in place and the object read afterwards differ in string form / length set (%s) but compare equal" % (
+                                k5, type(o_old).__name__, lab), "distinct:kept-vs-reread")
+                        elif e1 != e2:
+                            out.fail("C18.eqhash", "%s: kept vs re-read: == is not symmetric" % k5, "symmetric")
+                        elif e1 and hash(o_old) != hash(o_new):
+                            out.fail("C18.eqhash", "%s: kept and re-read objects are equal with different hashes" % k5, "hash:kept-vs-reread")
         finally:
             for n in nodes:
                 n.close()
